@@ -125,7 +125,10 @@ Proof. apply typedefs_model. Qed.
     alias [type Context = …] is shadowed by the type parameter of [Resolvers<Context>] *)
 Definition resolver_reserved (o : ropts) : list str :=
   [s "Context"; s "Omit"; s "Pick"; s "Promise"; s "GraphQLResolveInfo"; s "__Resolver"; s "__TypeResolver";
-   ro_ns o; ro_root o; ro_output o].
+   ro_ns o; ro_root o; ro_output o]
+  (* the resolvers file has no renaming at all: the keywords the printer emits as types are captured too
+     ([type null = Omit<…>], [Result = null | null]); /repo d4bb3a6 repaired this for the schema file only *)
+  ++ EMITTED_KEYWORDS.
 
 Definition resolver_scope_ok (o : ropts) (d : resolver_decls) : bool :=
   forallb (fun a => negb (mem (iname (fst a)) (resolver_reserved o))) (rd_aliases d).
